@@ -116,6 +116,15 @@ def h_additive_full_grid(ctx, ns, r):
     ctx.claim('additive_function_reproduced', ctx.all_([ctx.eq(F[i], y[j]) for j, i in enumerate(I)]))
 
 
+def _cheb(ctx, x, n):
+    """Independent Chebyshev basis T_0 .. T_{n-1} at the points x: array [n, len(x)]."""
+    x = np.asarray(x)
+    rows = [np.array([ctx.const(1) for _ in x], dtype=x.dtype), x.copy()]
+    for k in range(2, n):
+        rows.append(2 * x * rows[-1] - rows[-2])
+    return np.array(rows[:n], dtype=x.dtype)
+
+
 def h_func(ctx, m, n, d, zero_lamb=False):
     """Functional variant: the interpolant of the returned coefficient cores
     equals fitted constant + sum of fitted 1-D Chebyshev expansions; the fitted
@@ -136,7 +145,7 @@ def h_func(ctx, m, n, d, zero_lamb=False):
     # normal equations per dimension
     const = y0
     for k in range(d):
-        T = teneva.func_basis(X[:, k], n).T          # m x n
+        T = _cheb(ctx, X[:, k], n).T                  # m x n
         c = None
         full_c = [None] * n
         # cfs[k+1] = coefficients 1..n-1; coefficient 0 went into the constant
@@ -151,14 +160,14 @@ def h_func(ctx, m, n, d, zero_lamb=False):
     got = teneva.func_get(xq, cores, -1., 1.)
     want = cfs[0]
     for k in range(d):
-        Tq = teneva.func_basis(xq[k:k + 1], n)[:, 0]
+        Tq = _cheb(ctx, xq[k:k + 1], n)[:, 0]
         for p in range(1, n):
             want = want + cfs[k + 1][p - 1] * Tq[p]
     ctx.claim('interpolant_is_constant_plus_1d_expansions', ctx.eq(got, want))
     # ridge optimality of the fitted 1-D models: (A^T A + lamb I) c = A^T (y - y0)
     c0_total = y0
     for k in range(d):
-        T = teneva.func_basis(X[:, k], n).T
+        T = _cheb(ctx, X[:, k], n).T
         rhs = T.T @ (y - y0)
         # full coefficient vector: c[0] is not stored separately; use the residual equations 1..n-1
         # with c[0] eliminated through equation 0
@@ -185,8 +194,10 @@ def instances(tier):
         'full222': multi_indices([2, 2, 2]),
         'sparse3d': [(0, 0, 1), (1, 1, 0), (0, 1, 1), (1, 0, 0), (0, 0, 0)],
         'gap': [(0, 2), (2, 0), (0, 0), (2, 2)],       # observed domain {0,2}: mode size 2
+        # labels from a large grid (position p of a mode belongs to the p-th smallest observed label)
+        'large_labels': [(0, 8), (3, 0), (8, 3), (0, 0), (3, 8), (17, 9)],
     }
-    use = ['full22', 'sparse23', 'dup', 'sparse3d', 'gap'] if quick else list(sets)
+    use = ['full22', 'sparse23', 'dup', 'sparse3d', 'gap', 'large_labels'] if quick else list(sets)
     for name in use:
         for r in (2, 3):
             for nm in ('zero', 'symbolic'):
